@@ -214,7 +214,7 @@ fn main() {
     );
 
     // 2. bulk selection, complete
-    let pats: Vec<Vec<u8>> = (1..=n_bulk).flat_map(weak_orders).collect();
+    let pats: Vec<Vec<u8>> = std::iter::once(Vec::new()).chain((1..=n_bulk).flat_map(weak_orders)).collect();
     let cases = pats.into_iter().flat_map(|pat| {
         let n = pat.len();
         (0u32..(1 << n)).flat_map(move |mask| {
@@ -233,7 +233,7 @@ fn main() {
     });
     rep.run_sub(
         "bulk-all-pivots",
-        &format!("all weak-order patterns of length 1..={} x every subset of indexes (incl. empty), presented sorted / reversed / unordered with repeats x ALL pivot sequences; lengths <= 5 also on reversed (-1) and stepped (2) views", n_bulk),
+        &format!("the empty array (empty request) and all weak-order patterns of length 1..={} x every subset of indexes (incl. empty), presented sorted / reversed / unordered with repeats x ALL pivot sequences; lengths <= 5 also on reversed (-1) and stepped (2) views", n_bulk),
         cases,
         bulk_body,
     );
@@ -370,6 +370,150 @@ fn main() {
         &format!("lane lengths {:?} x 4 input families x indexes first / middle / last x policies first / last / middle x every pivot sequence that deviates from the policy at ONE of the first 6 choice points (all alternative pivots there)", tl),
         cases,
         single_body,
+    );
+    // 6. shared ownership: the selection routines take `&mut self` of any DataMut array; on an ArcArray whose
+    //    buffer is shared, and on a CowArray that borrows, they must still return the order statistic
+    let spats: Vec<Vec<u8>> = (1..=rep.cfg.pick(5, 6)).flat_map(weak_orders).collect();
+    let cases = spats.into_iter().flat_map(|pat| {
+        let n = pat.len();
+        (0..n).flat_map(move |i| {
+            let pat = pat.clone();
+            (0..4u8).map(move |kind| (pat.clone(), i, kind))
+        })
+    });
+    rep.run_sub(
+        "shared-ownership",
+        "all weak-order patterns of length 1..=5 (6) x every index x {ArcArray sharing its buffer with a second handle, CowArray borrowing an array} x {get_from_sorted_mut(i), get_many_from_sorted_mut([i, 0, n-1])} x ALL pivot sequences: no panic (ndarray asserts unique ownership in builds with debug assertions), the true order statistic(s) and the split postcondition on the handle that was passed",
+        cases,
+        |(pat, i, kind), lx| {
+            let n = pat.len();
+            let i = *i;
+            let vals: Vec<i32> = pat.iter().map(|&r| val(r)).collect();
+            let mut sorted = vals.clone();
+            sorted.sort();
+            lx.nontrivial(n >= 2 && pat.iter().any(|&r| r != pat[0]));
+            lx.explore(&PivotMode::All, |lx| {
+                let base = Array1::from(vals.clone());
+                let shared = base.clone().into_shared();
+                let keep = shared.clone();
+                let bulk = kind & 1 == 1;
+                let req = Array1::from(vec![i, 0, n - 1]);
+                let mut want_keys = vec![i, 0, n - 1];
+                want_keys.sort();
+                want_keys.dedup();
+                // (value(s), contents of the handle after the call)
+                let (r, after): (Result<Vec<(usize, i32)>, String>, Vec<i32>) = if kind & 2 == 0 {
+                    let mut h = shared;
+                    let r = if bulk { guarded(|| h.get_many_from_sorted_mut(&req)).map(|m| m.into_iter().collect()) } else { guarded(|| h.get_from_sorted_mut(i)).map(|v| vec![(i, v)]) };
+                    (r, h.to_vec())
+                } else {
+                    let mut h = ndarray::CowArray::from(base.view());
+                    let r = if bulk { guarded(|| h.get_many_from_sorted_mut(&req)).map(|m| m.into_iter().collect()) } else { guarded(|| h.get_from_sorted_mut(i)).map(|v| vec![(i, v)]) };
+                    (r, h.to_vec())
+                };
+                let what = format!("{} on {} {:?}", if bulk { format!("get_many_from_sorted_mut({:?})", req.to_vec()) } else { format!("get_from_sorted_mut({})", i) }, if kind & 2 == 0 { "a shared ArcArray" } else { "a borrowing CowArray" }, vals);
+                match &r {
+                    Err(m) => lx.fail("C02/in-range-panic", || format!("{} panicked: {}", what, m)),
+                    Ok(kv) => {
+                        if bulk {
+                            lx.check(kv.iter().map(|t| t.0).collect::<Vec<_>>() == want_keys, "C02/bulk-keys", || format!("{}: entries {:?}", what, kv));
+                        }
+                        for (k, v) in kv {
+                            if *k < n {
+                                lx.check(*v == sorted[*k], "C02/wrong-value", || format!("{}: position {} -> {}, sorted[{}] = {}", what, k, v, k, sorted[*k]));
+                            }
+                        }
+                        if !bulk {
+                            let v = kv[0].1;
+                            lx.check(after[..i].iter().all(|x| *x <= v) && after[i..].iter().all(|x| *x >= v), "C02/postcondition", || format!("{} -> {}: handle now holds {:?}", what, v, after));
+                        }
+                    }
+                }
+                let mut b = after.clone();
+                b.sort();
+                lx.check(b == sorted, "C02/multiset-changed", || format!("{}: handle now holds {:?}", what, after));
+                // (whether the other handle stays intact is C03 / C15, not this property)
+                let _ = &keep;
+                hash_of(&(r.ok(), after))
+            });
+        },
+    );
+    // 7. call histories: two bulk selections one after the other on the same thread. The routines are
+    //    stateless by contract; a memo or scratch buffer kept between calls (thread-local or static)
+    //    would make the second answer depend on the first call.
+    let small: Vec<(Vec<u8>, Vec<usize>)> = std::iter::once(Vec::new())
+        .chain((1..=3).flat_map(weak_orders))
+        .flat_map(|pat| {
+            let n = pat.len();
+            (0u32..(1 << n)).flat_map(move |mask| {
+                let pat = pat.clone();
+                [0u8, 2].iter().map(move |&v| (pat.clone(), index_list(n, mask, v))).collect::<Vec<_>>()
+            })
+        })
+        .collect();
+    // two requests that are out of range for their array (the call is rejected; what follows it on the
+    // same thread must be unaffected)
+    let mut small = small;
+    small.push((vec![0, 1], vec![5]));
+    small.push((vec![], vec![0]));
+    small.push((vec![1, 0, 2], vec![1, 7, 0]));
+    let nsmall = small.len();
+    let small2 = small.clone();
+    let cases = (0..nsmall).flat_map(move |a| {
+        let small = small2.clone();
+        (0..nsmall).map(move |b| (small[a].clone(), small[b].clone(), (a * 7 + b) % 3))
+    });
+    rep.run_sub(
+        "call-histories",
+        &format!("every ordered pair of bulk selections drawn from {} (array, request) combinations (the empty array and all weak-order patterns of length 1..=3 x every index subset, sorted / unordered with repeats; plus three out-of-range requests, which are rejected and whose only role is to precede an in-range call), executed back to back on one thread, pivot policy rotating first / middle / last; followed by a single selection: each answer must be the one the call gives on its own", nsmall),
+        cases,
+        |(first, second, pol), lx| {
+            let policy = [Policy::First, Policy::Middle, Policy::Last][*pol];
+            lx.nontrivial(first.0.len() >= 1 && second.0.len() >= 1 && first.0.len() != second.0.len());
+            lx.explore(&PivotMode::Bounded { policy, bound: 0 }, |lx| {
+                let mut obs = Vec::new();
+                for (pat, idx) in [first, second] {
+                    let n = pat.len();
+                    let vals: Vec<i32> = pat.iter().map(|&r| val(r)).collect();
+                    let mut sorted = vals.clone();
+                    sorted.sort();
+                    let mut distinct = idx.clone();
+                    distinct.sort();
+                    distinct.dedup();
+                    let mut a = Array1::from(vals.clone());
+                    if idx.iter().any(|&i| i >= n) {
+                        // out of range: the verdict on this call is C16's; only its effect on later calls matters here
+                        let _ = guarded(|| a.get_many_from_sorted_mut(&Array1::from(idx.clone())));
+                        let _ = guarded(|| a.get_from_sorted_mut(idx[0]));
+                        continue;
+                    }
+                    match guarded(|| a.get_many_from_sorted_mut(&Array1::from(idx.clone()))) {
+                        Err(m) => lx.fail("C02/bulk-in-range-panic", || format!("history {:?} then {:?}: get_many_from_sorted_mut({:?}) on {:?} panicked: {}", first, second, idx, vals, m)),
+                        Ok(m) => {
+                            let keys: Vec<usize> = m.keys().cloned().collect();
+                            lx.check(keys == distinct, "C02/bulk-keys", || format!("history {:?} then {:?}: get_many_from_sorted_mut({:?}) on {:?} has keys {:?}", first, second, idx, vals, keys));
+                            for (k, v) in m.iter() {
+                                if *k < n {
+                                    lx.check(*v == sorted[*k], "C02/bulk-wrong-value", || format!("history {:?} then {:?}: entry {} -> {} but sorted[{}] = {}", first, second, k, v, k, sorted[*k]));
+                                }
+                            }
+                            obs.push(m.into_iter().collect::<Vec<_>>());
+                        }
+                    }
+                    if n > 0 {
+                        let i = idx.first().cloned().unwrap_or(n - 1).min(n - 1);
+                        let mut a = Array1::from(vals.clone());
+                        match guarded(|| a.get_from_sorted_mut(i)) {
+                            Err(m) => lx.fail("C02/in-range-panic", || format!("history {:?} then {:?}: get_from_sorted_mut({}) on {:?} panicked: {}", first, second, i, vals, m)),
+                            Ok(v) => {
+                                lx.check(v == sorted[i], "C02/wrong-value", || format!("history {:?} then {:?}: get_from_sorted_mut({}) on {:?} = {}", first, second, i, vals, v));
+                            }
+                        }
+                    }
+                }
+                hash_of(&obs)
+            });
+        },
     );
     rep.finish();
 }
